@@ -488,7 +488,13 @@ func qualify(x gen.Expr, side string) gen.Expr {
 				return x
 			}
 		}
-		return &gen.QIdent{Parts: []gen.Ident{{Name: side}, x.Parts[len(x.Parts)-1]}}
+		col := x.Parts[len(x.Parts)-1]
+		// now and then a column that is itself called like a join alias (the
+		// choice is a function of the original name, so that it replays)
+		if h := len(col.Name)*7 + len(col.Name+"x")*int((col.Name + "x")[0]); h%6 == 0 {
+			col = []gen.Ident{{Name: "$right", Quoted: true}, {Name: "$left", Quoted: true}, {Name: "$right"}, {Name: "$left"}}[h/6%4]
+		}
+		return &gen.QIdent{Parts: []gen.Ident{{Name: side}, col}}
 	case *gen.Unary:
 		return &gen.Unary{Op: x.Op, X: qualify(x.X, side)}
 	case *gen.Binary:
